@@ -386,12 +386,13 @@ def unparse(node, limit=160):
 # single-assignment temporaries
 # ---------------------------------------------------------------------------
 
-def single_assignments(fnode, allow_subscript=False):
+def single_assignments(fnode, allow_subscript=False, in_loops=False):
     """name -> value expression for every local that is bound exactly once in `fnode`, by a plain `name = expr` statement that is
     not inside a loop, and whose value mentions only parameters that are never rebound or other such locals.  At any later use the
     name therefore denotes the value of that expression (a use before the definition would raise UnboundLocalError)."""
     stores = {}
     in_loop = set()
+    loop_targets = {}
 
     def scan(stmts, loop):
         for s in stmts:
@@ -414,6 +415,7 @@ def single_assignments(fnode, allow_subscript=False):
                 for e in ast.walk(s.target):
                     if isinstance(e, ast.Name):
                         stores.setdefault(e.id, []).append(None)
+                        loop_targets[e.id] = loop_targets.get(e.id, 0) + 1
                 scan(s.body, True)
                 scan(s.orelse, loop)
             elif isinstance(s, ast.While):
@@ -450,8 +452,11 @@ def single_assignments(fnode, allow_subscript=False):
         params.add(fnode.args.vararg.arg)
     if fnode.args.kwarg:
         params.add(fnode.args.kwarg.arg)
-    cand = {n: v[0].value for n, v in stores.items() if len(v) == 1 and v[0] is not None and n not in in_loop and n not in params}
+    cand = {n: v[0].value for n, v in stores.items() if len(v) == 1 and v[0] is not None and (in_loops or n not in in_loop) and n not in params}
     stable = {p for p in params if p not in stores}
+    if in_loops:
+        # a loop variable bound by exactly one `for` (and nothing else) is constant within an iteration
+        stable |= {n for n, c in loop_targets.items() if c == 1 and len(stores.get(n, ())) == 1}
     changed = True
     good = {}
     while changed:
@@ -462,7 +467,7 @@ def single_assignments(fnode, allow_subscript=False):
             ok = True
             for e in ast.walk(val):
                 if isinstance(e, ast.Name) and isinstance(e.ctx, ast.Load):
-                    if e.id in stores and e.id not in good:
+                    if e.id in stores and e.id not in good and e.id not in stable:
                         ok = False
                     elif e.id in params and e.id not in stable:
                         ok = False
@@ -491,11 +496,11 @@ class _SubstNames(ast.NodeTransformer):
         return n
 
 
-def resolve_temps(fnode, expr, allow_subscript=False, pure_only=True):
+def resolve_temps(fnode, expr, allow_subscript=False, pure_only=True, in_loops=False):
     """`expr` with every single-assignment temporary of `fnode` replaced by its defining expression (recursively).  With pure_only
     a temporary whose definition contains a call other than a NumPy scalar constructor / len / int / float is left alone."""
     import copy
-    env = single_assignments(fnode, allow_subscript)
+    env = single_assignments(fnode, allow_subscript, in_loops)
     if pure_only:
         def pure(v):
             for e in ast.walk(v):
